@@ -21,6 +21,7 @@ func init() {
 			"MTU {64,65,100,267,1200,65535}; payloaders G711, G722, Opus, H264, H265, VP8 with picture ids, VP9 flexible, AV1 with inputs shaped for each; start configurations (sequencer start, initial timestamp via the random seam) in {(0,0),(1234,0xFFFFFC40),(65534,0xFFFFFFFF),(65535,0x01020304)}; clock answers through the verif seam from instants around the 64 s wrap of the 24-bit field",
 			"call alphabet: Packetize(len in {1,B-1,B,B+1,2B,3B+5,E,2E}, samples in {0,1,960,2^32-1}) (B = MTU-12, E = B less the room of the abs-send-time extension configured at that point, so that the last fragment fills its packet), SkipSamples {0,1,2^31,2^32-1}, GeneratePadding {0,1,2}, EnableAbsSendTime {0,1,15} (reconfiguration between calls): all sequences of depth 2 over the full alphabet, depth 3 (thorough 4) over a 15-call sub-alphabet; MTU 1200 and 65535 use lengths {1,B,B+1} and depth 2",
 			"long runs: all sequences of 5 (quick) / 7 (thorough) calls over {Packetize(B+1,960), Packetize(1,1), SkipSamples(2^31), GeneratePadding(1), Packetize(300*B+7, 90000)} for MTU {64,100} x {G711, H264, VP8} x abs-send-time off/id 1 x 4 start configurations: trains of more than 256 packets and sequences that cross the 16-bit wrap in the middle of a train",
+			"runs of 120 calls on one packetizer cycling through a pattern of 2, 3, 5 or 7 calls (Packetize small / B+1 / E / B / 2E bytes, GeneratePadding, SkipSamples) for MTU {64,100,1200} x every payloader x abs-send-time off / 1 / 15 x 4 start configurations",
 			"Opus ignores the MTU by design: the size clause applies to Opus only when the payload fits the budget",
 		},
 		Scenarios: []mc.Scenario{
@@ -28,6 +29,7 @@ func init() {
 			{Name: "call-sequences-depth-3", Tiers: "qt", ShardDepth: 3, Run: func(c *mc.Ctx) { c06Run(c, 3, false) }},
 			{Name: "call-sequences-depth-4", Tiers: "t", ShardDepth: 4, Run: func(c *mc.Ctx) { c06Run(c, 4, false) }},
 			{Name: "long-sequences-and-long-trains", Tiers: "qt", ShardDepth: 3, Run: c06Long},
+			{Name: "runs-of-120-calls", Tiers: "qt", ShardDepth: 3, Run: c06Run120},
 		},
 	})
 }
@@ -197,6 +199,23 @@ func c06Long(c *mc.Ctx) {
 	}
 	c06Decoy = c.Bool()
 	defer func() { c06Decoy = false }()
+	c06Drive(c, mtu, pi, absID, start, ops)
+}
+
+// c06Run120: 120 calls on one packetizer, cycling through a pattern of 2, 3, 5 or 7 calls (so
+// that every position of the pattern meets every residue of the call count), with small and
+// MTU-filling payloads: state that only matters after many successful calls.
+func c06Run120(c *mc.Ctx) {
+	mtu := mc.From(c, []int{64, 100, 1200})
+	pi := c.Pick(len(c06Payloaders))
+	absID := mc.From(c, []int{0, 1, 15})
+	start := mc.From(c, c06Starts)
+	period := mc.From(c, []int{2, 3, 5, 7})
+	pattern := []c06Op{{0, 0, 960}, {0, 3, 1}, {0, 7, 960}, {2, 0, 1}, {1, 0, 7}, {0, 2, 0}, {0, 8, 3000}}
+	ops := make([]c06Op, 120)
+	for i := range ops {
+		ops[i] = pattern[i%period]
+	}
 	c06Drive(c, mtu, pi, absID, start, ops)
 }
 
